@@ -168,6 +168,51 @@ it = P()
         return el(i)
 it = P()
 ''', ('int', 'str', 'pair'), (1, 3)),
+    # the iterator protocol methods are inherited: found along the MRO of the object's class, not only in the class itself
+    'iterclass-inherited': ('''class PB:
+    def __init__(self):
+        self.i = 0
+    def __iter__(self):
+        return self
+    def __next__(self):
+        i = self.i
+        print("p", i)
+        self.i = i + 1
+        fault(i)
+        if i >= 3:
+            raise StopIteration
+        return el(i)
+class PM:
+    pass
+class P(PM, PB):
+    pass
+it = P()
+''', ('int', 'str', 'pair'), (0, 1, 2, 3)),
+    'iterable-inherited': ('''class PB:
+    def __iter__(self):
+        i = 0
+        while i < 3:
+            print("p", i)
+            fault(i)
+            yield el(i)
+            i = i + 1
+        print("p", "end")
+        fault(3)
+class P(PB):
+    pass
+it = P()
+''', ('int', 'str', 'pair'), (0, 1, 2, 3)),
+    'getitem-inherited': ('''class PB:
+    def __getitem__(self, i):
+        print("p", i)
+        fault(i)
+        if i >= 3:
+            raise IndexError
+        return el(i)
+class P(PB):
+    pass
+it = iter(P())
+''', ('int', 'str', 'pair'), (0, 1, 2, 3)),
     'listiter': ('it = iter([el(0), el(1), el(2)])\n', ('int', 'str', 'pair'), ()),
     'range': ('it = iter(range(1, 4))\n', ('int',), ()),
     'map': ('''def st(i):
